@@ -13,7 +13,7 @@ DEFAULTS = dict(
     p_eventless=0.25, p_internal=0.2, p_guard=0.6, min_trans=2, max_trans=14,
     p_send=0.25, p_state_send=0.08, p_notify=0.3, delays=(0, 0, 0, 0.125, 1, 1, 2, 5),
     contracts=False, p_contract=0.5, timed=False, timed_plain=0.0, mode=None, priorities=(-1, 0, 0, 0, 1, 2),
-    min_states=3, root_basic_ok=0.05, allow_inner_history=False, p_shared_text=0.0, p_active_call=0.0, p_twin=0.0, p_odd_names=0.0,
+    min_states=3, root_basic_ok=0.05, allow_inner_history=False, p_shared_text=0.0, p_active_call=0.0, p_twin=0.0, p_odd_names=0.0, p_hier_names=0.0,
 )
 
 
@@ -144,8 +144,15 @@ def _gen_structure(rnd, o):
     st = {}
     order = []
 
+    hier = o.get('p_hier_names', 0.0) and rnd.random() < o['p_hier_names']
+
     def new(kind, parent):
         n = next(names)
+        if hier:
+            # hierarchical naming convention: main, main_left, main_left_on ... (a name is a prefix / substring of others)
+            n = 'm' if parent is None else '%s_%s' % (parent, n[:1] if rnd.random() < 0.6 else n)
+            while n in st:
+                n += 'x'
         st[n] = dict(kind=kind, parent=parent, children=[], initial=None, memory=None,
                      sends_entry=[], sends_exit=[], contracts=dict(pre=[], post=[], inv=[]))
         order.append(n)
